@@ -62,6 +62,10 @@ const Domain = "vh.test"
 // Host returns the host name of label x.
 func Host(x string) string { return x + "." + Domain }
 
+// IPs are the IP literals the generators may use as CONNECT authorities or
+// request hosts; the origin's certificate is valid for them too.
+var IPs = []string{"127.0.0.1", "10.9.8.7", "::1", "2001:db8::7"}
+
 // ---------------------------------------------------------------------------
 // CA
 
@@ -95,6 +99,7 @@ func NewCA() (*CA, error) {
 		SerialNumber: big.NewInt(time.Now().UnixNano()),
 		Subject:      pkix.Name{CommonName: "origin." + Domain},
 		DNSNames:     []string{"*." + Domain, Domain},
+		IPAddresses:  originIPs(),
 		NotBefore:    time.Now().Add(-time.Hour),
 		NotAfter:     time.Now().Add(24 * time.Hour),
 		KeyUsage:     x509.KeyUsageDigitalSignature,
@@ -111,6 +116,14 @@ func NewCA() (*CA, error) {
 			NextProtos:   []string{"http/1.1"},
 		},
 	}, nil
+}
+
+func originIPs() []net.IP {
+	var out []net.IP
+	for _, s := range IPs {
+		out = append(out, net.ParseIP(s))
+	}
+	return out
 }
 
 // ---------------------------------------------------------------------------
@@ -325,6 +338,8 @@ type Origin struct {
 	dials     []DialEv
 	dialFail  map[string]bool // host -> refuse
 	drop      map[string]bool // xid -> close without answering
+	plain     map[string]bool // host -> answer a TLS ClientHello with plain bytes and close
+	plainHits int64
 	conns     map[string][]*vh.PipeConn
 	cleartext int64 // connections whose first byte was not a TLS handshake
 	tlsConns  int64
@@ -333,7 +348,7 @@ type Origin struct {
 
 // NewOrigin creates an origin.
 func NewOrigin(ca *CA) *Origin {
-	return &Origin{ca: ca, dialFail: map[string]bool{}, drop: map[string]bool{}, conns: map[string][]*vh.PipeConn{}}
+	return &Origin{ca: ca, dialFail: map[string]bool{}, drop: map[string]bool{}, plain: map[string]bool{}, conns: map[string][]*vh.PipeConn{}}
 }
 
 // SetDialFail makes dials to host (no port) fail.
@@ -349,6 +364,18 @@ func (o *Origin) SetDrop(xid string) {
 	o.drop[xid] = true
 	o.mu.Unlock()
 }
+
+// SetPlainReply makes the origin answer every TLS ClientHello on connections
+// dialled for host with plain (non-TLS) bytes and close; cleartext
+// connections to the host are served normally.
+func (o *Origin) SetPlainReply(host string) {
+	o.mu.Lock()
+	o.plain[strings.ToLower(host)] = true
+	o.mu.Unlock()
+}
+
+// PlainReplies is the number of ClientHellos answered with plain bytes.
+func (o *Origin) PlainReplies() int64 { return atomic.LoadInt64(&o.plainHits) }
 
 func hostOnly(addr string) string {
 	if h, _, err := net.SplitHostPort(addr); err == nil {
@@ -394,6 +421,15 @@ func (o *Origin) serve(c *vh.PipeConn, addr string) {
 	var rw net.Conn = &peeked{Conn: c, r: br}
 	isTLS := first[0] == 0x16
 	if isTLS {
+		o.mu.Lock()
+		plain := o.plain[strings.ToLower(hostOnly(addr))]
+		o.mu.Unlock()
+		if plain {
+			// fault: this port "does not speak TLS"
+			atomic.AddInt64(&o.plainHits, 1)
+			io.WriteString(c, "HTTP/1.1 400 Bad Request\r\nContent-Length: 0\r\nConnection: close\r\n\r\n")
+			return
+		}
 		atomic.AddInt64(&o.tlsConns, 1)
 		tc := tls.Server(rw, o.ca.OriginTLS)
 		c.SetDeadline(time.Now().Add(Watchdog))
